@@ -801,7 +801,7 @@ pub fn run(ctx: &mut Ctx) {
     );
 
     // frame level
-    let per = ctx.pick(200u32, 4000);
+    let per = ctx.pick(400u32, 4000);
     for &k in &ALL_KINDS {
         let mut widths: Vec<usize> = vec![0];
         if FULL_WIDTH_KINDS.contains(&k) {
